@@ -57,8 +57,9 @@ class Reject:
 
 
 class Need:
-    def __init__(self, what, at=0):
+    def __init__(self, what, at=0, either=()):
         self.what, self.at = what, at
+        self.either = list(either)  # tolerances already met: refusal permitted
 
     def __repr__(self):
         return f"<Need {self.what}>"
@@ -152,7 +153,7 @@ def parse_chunked(buf, pos, max_body):
         if eol < 0:
             # an unterminated size line: a bare LF/CR inside it is already wrong
             # but the verdict "need more" is equally safe (nothing delivered)
-            return Need("chunk-size line", pos)
+            return Need("chunk-size line", pos, either)
         line = buf[pos:eol]
         semi = line.find(b";")
         size_part = line if semi < 0 else line[:semi]
@@ -176,7 +177,7 @@ def parse_chunked(buf, pos, max_body):
             raw_avail = n - pos
             if max_body is not None and len(body) + raw_avail >= max_body:
                 return Reject("body too large", (413,), pos)
-            return Need("chunk data", pos)
+            return Need("chunk data", pos, either)
         body += buf[pos : pos + size]
         pos += size
         if max_body is not None and len(body) >= max_body:
@@ -184,18 +185,18 @@ def parse_chunked(buf, pos, max_body):
         if n - pos < 2:
             if n - pos == 1 and buf[pos] != 0x0D:
                 return Reject("chunk not terminated by CRLF", (400,), pos)
-            return Need("chunk terminator", pos)
+            return Need("chunk terminator", pos, either)
         if buf[pos : pos + 2] != b"\r\n":
             return Reject("chunk not terminated by CRLF", (400,), pos)
         pos += 2
     # trailer section: *( field-line CRLF ) CRLF
     if buf[pos : pos + 2] == b"\r\n":
+        if max_body is not None and pos + 2 - start >= max_body:
+            either.append("raw-chunked-size-over-limit")
         return bytes(body), [], pos + 2, either
     end = buf.find(b"\r\n\r\n", pos)
     if end < 0:
-        if n - pos < 2 and buf[pos:n] in (b"", b"\r"):
-            return Need("trailer", pos)
-        return Need("trailer", pos)
+        return Need("trailer", pos, either)
     block = buf[pos:end]
     lines, bare = _split_lines_strict(block)
     if bare:
@@ -203,6 +204,9 @@ def parse_chunked(buf, pos, max_body):
     tr = parse_field_lines(lines, either)
     if isinstance(tr, str):
         return Reject("malformed trailer: " + tr, (400,), pos)
+    if max_body is not None and end + 4 - start >= max_body:
+        # the limit may be applied to the encoded size (policy): refusal permitted
+        either.append("raw-chunked-size-over-limit")
     return bytes(body), tr, end + 4, either
 
 
@@ -369,7 +373,11 @@ def parse_one(buf, pos, max_header=None, max_body=None):
             m.framing = "chunked"
             if cl:
                 m.must_close = True  # RFC 9112 6.1 / 6.3 rule 3
+                # "A server MAY reject a request that contains both"
+                m.either.append("cl+te")
             r = parse_chunked(buf, pos, max_body)
+            if isinstance(r, Need):
+                r.either = m.either + r.either
             if isinstance(r, (Reject, Need)):
                 return r
             body, trailers, endpos, eith = r
